@@ -840,6 +840,304 @@ func c12ThroughBinary(r *rand.Rand, tier string, emit func(Case)) {
 	}
 }
 
+// ---- positions through the binary with SEVERAL input files -------------------------------------
+//
+// A runtime fault keeps its position whatever the input looks like: one, two or three input
+// files (one of them /dev/stdin), the fault raised while the first, a middle or the last file
+// is processed, in a rule of every kind (BEGIN, BEGINFILE, a pattern, a rule body, ENDFILE,
+// END) or in a function called from it. The faults are triggered by the DATA (a record with
+// d = 0, a bad regex, an index out of range, an array where a number is compared, a number
+// where printf wants a string), so the rules run cleanly on every value before the trigger.
+
+type c12DataFault struct {
+	text string // the faulty expression, over the record `$` (or `v` inside the function)
+	what string
+}
+
+var c12DataFaults = []c12DataFault{
+	{"$.a / $.d", "division by a zero field"}, {"$.a % $.d", "modulo by a zero field"}, {"$.s ~ $.re", "bad regex from the data"},
+	{"[10, 20, 30][$.i]", "index from the data out of range"}, {"$.a < $.t", "compare with an array from the data"}, {"printf(\"%s\\n\", $.p)", "printf %s with a number from the data"},
+	{"100 / ($.d * 2)", "division by a computed zero"}, {"$.a /\n    $.d", "division spread over two lines"},
+}
+
+const c12GoodRec = `{"a": 6, "d": 3, "s": "abc", "re": "b", "i": 1, "t": 9, "p": "str"}`
+
+// the record that triggers fault k
+func c12TriggerRec(k int) string {
+	switch k {
+	case 2:
+		return `{"a": 6, "d": 3, "s": "abc", "re": "(", "i": 1, "t": 9, "p": "str"}`
+	case 3:
+		return `{"a": 6, "d": 3, "s": "abc", "re": "b", "i": -5, "t": 9, "p": "str"}`
+	case 4:
+		return `{"a": 6, "d": 3, "s": "abc", "re": "b", "i": 1, "t": [9], "p": "str"}`
+	case 5:
+		return `{"a": 6, "d": 3, "s": "abc", "re": "b", "i": 1, "t": 9, "p": 5}`
+	}
+	return `{"a": 6, "d": 0, "s": "abc", "re": "b", "i": 1, "t": 9, "p": "str"}`
+}
+
+var c12RuleKinds = []string{"BEGIN", "BEGINFILE", "pattern", "body", "ENDFILE", "END", "fn-from-BEGINFILE", "fn-from-pattern", "fn-from-body", "fn-from-ENDFILE", "bodyless-pattern"}
+
+// c12MultiFileProgram: a multi-line program with the fault in a rule of the given kind;
+// returns the text and the span of the faulty expression.
+func c12MultiFileProgram(r *rand.Rand, kind string, f c12DataFault, crlf int) (string, int, int) {
+	var sb strings.Builder
+	eol := func() { sb.WriteString(c12Eol(r, crlf)) }
+	line := func(s string) { sb.WriteString(s); eol() }
+	fill := func(indent string) {
+		for k := r.Intn(3); k > 0; k-- {
+			line(indent + pick(r, []string{"# comment é", "y = y + 1", "s = 'héé 日本'", "", "t = \"a#b\"  # trailing", "h1 = \"first half\nsecond half\"", "#", "u2 = \"\x80 stray\""}))
+		}
+	}
+	off := -1
+	fault := func(pre, text, post string) {
+		sb.WriteString(pre)
+		off = sb.Len()
+		sb.WriteString(text)
+		line(post)
+	}
+	static := "1 / (n - n)" // BEGIN and END rules see no record
+	inFn := strings.HasPrefix(kind, "fn-")
+	fnText := strings.ReplaceAll(f.text, "$", "v")
+	if chance(r, 0.5) {
+		line(pick(r, []string{"# ratio per record é", "#!/usr/bin/env jqawk -f", "# 日本語 \x80"}))
+	}
+	if chance(r, 0.3) {
+		eol()
+	}
+	items := []func(){
+		func() {
+			line("function chk(v) {")
+			fill("  ")
+			if inFn {
+				fault("  w = ", fnText, pick(r, []string{"", "  # é", " "}))
+			} else {
+				line("  w = v.a")
+			}
+			line("  return w")
+			line("}")
+		},
+		func() {
+			line("BEGIN {")
+			line("  n = 0; y = 0")
+			fill("  ")
+			if kind == "BEGIN" {
+				fault("  x = ", static, "")
+			}
+			line("  print 'begin'")
+			line("}")
+		},
+		func() {
+			line("BEGINFILE {")
+			fill("  ")
+			line("  bf++")
+			switch kind {
+			case "BEGINFILE":
+				fault(pick(r, []string{"  x = ", "  print 'bf', ", "  if (bf > 0) x = "}), f.text, "")
+			case "fn-from-BEGINFILE":
+				line("  x = chk($)")
+			}
+			line("  print 'B', $file, bf")
+			line("}")
+		},
+		func() {
+			switch kind {
+			case "pattern":
+				pre := pick(r, []string{"", "$.a > 0 && ", "('p1\np2' != ("})
+				fault(pre, f.text, map[bool]string{true: ")) { print 'hit' }", false: " { print 'hit' }"}[strings.HasPrefix(pre, "(")])
+			case "fn-from-pattern":
+				line("chk($) > 100 { print 'big' }")
+			case "bodyless-pattern":
+				fault("", f.text, "")
+			default:
+				line("$.a > 100 { print 'big' }")
+			}
+		},
+		func() {
+			line("{")
+			line("  n++")
+			fill("  ")
+			switch kind {
+			case "body":
+				pre := pick(r, []string{"  print ", "  x = ", "  if (n > 0) { x = ", "  print 'v', n, "})
+				fault(pre, f.text, map[bool]string{true: " }", false: ""}[strings.HasSuffix(pre, "{ x = ")])
+			case "fn-from-body":
+				line("  print chk($)")
+			}
+			line("  print 'v', n, $.a")
+			line("}")
+		},
+		func() {
+			line("ENDFILE {")
+			fill("  ")
+			switch kind {
+			case "ENDFILE":
+				fault(pick(r, []string{"  x = ", "  print 'ef', "}), f.text, "")
+			case "fn-from-ENDFILE":
+				line("  x = chk($)")
+			}
+			line("  print 'E', $file")
+			line("}")
+		},
+		func() {
+			line("END {")
+			fill("  ")
+			if kind == "END" {
+				fault("  print ", static, "")
+			}
+			line("  print 'end', n")
+			line("}")
+		},
+	}
+	// the function anywhere among the rules; the rules of different kinds in any order (the order
+	// of rules of different kinds does not matter for the schedule)
+	r.Shuffle(len(items), func(a, b int) { items[a], items[b] = items[b], items[a] })
+	for _, it := range items {
+		it()
+		if chance(r, 0.3) {
+			eol()
+		}
+	}
+	text := sb.String()
+	n := len(f.text)
+	if kind == "BEGIN" || kind == "END" {
+		n = len(static)
+	} else if inFn {
+		n = len(fnText)
+	}
+	if chance(r, 0.3) {
+		text = strings.TrimRight(text, "\r\n")
+	}
+	return text, off, n
+}
+
+func c12MultiFile(r *rand.Rand, tier string, emit func(Case)) {
+	if os.Getenv("JQAWK_BIN") == "" {
+		return // reported by c12ThroughBinary
+	}
+	n := tierN(tier, 220, 4000)
+	names := []string{"one.json", "two.json", "sub/three.json"}
+	for i := 0; i < n; i++ {
+		kind := c12RuleKinds[i%len(c12RuleKinds)]
+		fk := r.Intn(len(c12DataFaults))
+		f := c12DataFaults[fk]
+		text, off, ln := c12MultiFileProgram(r, kind, f, r.Intn(3))
+		lead := pick(r, c12Lead)
+		if i%8 == 7 {
+			lead = ""
+		}
+		text = lead + text
+		off += len(lead)
+		// 1-3 files of 1-3 records each; the trigger in the first / second / last file
+		nf := 1 + (i/len(c12RuleKinds))%3
+		tf := pick(r, []int{0, 1, nf - 1})
+		if tf >= nf {
+			tf = nf - 1
+		}
+		trig := c12TriggerRec(fk % 8)
+		if fk >= 6 {
+			trig = c12TriggerRec(0)
+		}
+		var lib []File
+		var disk []CliFile
+		var argvFiles []string
+		var stdin []byte
+		stdinAt := -1
+		if nf >= 2 && chance(r, 0.25) {
+			stdinAt = r.Intn(nf) // stdin plus files: /dev/stdin among the file arguments
+		}
+		for k := 0; k < nf; k++ {
+			nv := 1 + r.Intn(3)
+			vals := make([]string, nv)
+			for j := range vals {
+				vals[j] = c12GoodRec
+			}
+			if k == tf {
+				vals[r.Intn(nv)] = trig
+			}
+			var data string
+			if chance(r, 0.3) && kind != "BEGINFILE" && kind != "ENDFILE" && !strings.HasSuffix(kind, "FILE") {
+				data = "[" + strings.Join(vals, ", ") + "]\n" // one array of records: the pattern rules see the records
+			} else {
+				data = strings.Join(vals, "\n") + "\n"
+			}
+			name := names[k]
+			if k == stdinAt {
+				name = "/dev/stdin"
+				stdin = []byte(data)
+			} else {
+				disk = append(disk, CliFile{Name: name, Data: []byte(data)})
+			}
+			lib = append(lib, File{Name: name, Data: []byte(data)})
+			argvFiles = append(argvFiles, name)
+		}
+		what := fmt.Sprintf("%s in a %s rule, %d input file(s), triggered by file %d", f.what, kind, nf, tf+1)
+		if stdinAt >= 0 {
+			what += fmt.Sprintf(", file %d is /dev/stdin", stdinAt+1)
+		}
+		g := fmt.Sprintf("mf-%d", i)
+		meta := func(variant string) map[string]string {
+			m := metaProg(text, "fault", what, "variant", variant, "row", kind, "col", fmt.Sprintf("%d files, trigger in file %d", nf, tf+1))
+			for _, fl := range lib {
+				m["file "+fl.Name] = string(fl.Data)
+			}
+			return m
+		}
+		libOracle := c12In(text, "runtime", off, ln)
+		emit(Case{ID: g + "/lib", Req: RunReq(text, nil, lib, false), Fields: append([]string{"out"}, c12Fields...), Group: g,
+			Meta: meta("library run (reference of the group)"), Oracle: libOracle, NonTrivial: c12ErrNT})
+		for _, viaFile := range []bool{false, true} {
+			if viaFile && i%2 == 0 {
+				continue
+			}
+			argv := append([]string{text}, argvFiles...)
+			files := append([]CliFile{}, disk...)
+			variant := "the binary, program as an argument"
+			if viaFile {
+				argv = append([]string{"-f", "prog.jqawk"}, argvFiles...)
+				files = append(files, CliFile{Name: "prog.jqawk", Data: []byte(text)})
+				variant = "the binary, program in a file given with -f"
+			} else if strings.HasPrefix(text, "-") {
+				argv = append([]string{"--"}, argv...)
+			}
+			c := Case{ID: g + map[bool]string{false: "/inline", true: "/dash-f"}[viaFile], Req: CliReq(argv, stdin, stdinAt >= 0, files, ""), Fields: []string{"exit", "out", "err"}, Group: g, Meta: meta(variant),
+				NonTrivial: func(i Resp) bool { return i["exit"] == "1" },
+				Oracle: func(i Resp) string {
+					d, w := c12DiagResp(i)
+					if w != "" {
+						return w
+					}
+					return libOracle(d)
+				},
+				GroupCheck: func(first, self Resp) string {
+					d, w := c12DiagResp(self)
+					if w != "" {
+						return "" // reported by the oracle
+					}
+					if first["class"] != "ok" && first["class"] != "syntax" && first["class"] != "runtime" {
+						return ""
+					}
+					for _, f := range c12Fields {
+						if d[f] != first[f] {
+							return fmt.Sprintf("the binary's diagnostic says %s=%s, the library reports %s=%s for the same program text and inputs (binary: class %s line %s col %s src %q; library: class %s line %s col %s src %q)",
+								f, short(d[f]), f, short(first[f]), d["class"], d["line"], d["col"], d.Bytes("src"), first["class"], first["line"], first["col"], first.Bytes("src"))
+						}
+					}
+					if string(self.Bytes("out")) != string(first.Bytes("out")) {
+						return fmt.Sprintf("stdout %q, the library printed %q before the error", self.Bytes("out"), first.Bytes("out"))
+					}
+					return ""
+				}}
+			if stdinAt >= 0 {
+				// the model knows stdin only as bytes: the same bytes in a plain file of that name
+				c.ModelReq = CliReq(argv, nil, false, append(append([]CliFile{}, files...), CliFile{Name: "/dev/stdin", Data: stdin}), "")
+			}
+			emit(c)
+		}
+	}
+}
+
 // ---- selector faults of every kind, in selector texts that look nothing like the program -------
 
 // expressions that evaluate without a fault but whose VALUE cannot become a root (a method
@@ -1361,6 +1659,9 @@ func init() {
 	register(Family{
 		Name: "positions-through-binary", Prop: "C12",
 		Rule: "the REAL BINARY's diagnostic (cli.go printError: the quoted source line, the caret line, 'syntax|runtime error on line N') parsed back into line / column / source line: programs with a runtime fault (every kind x every form, multi-line, the C12 fillers; one in 16: the call-depth limit exceeded by a function frame or a match frame, every recursion shape x start), an unexpected '=>', an illegal character, an unterminated string at a known offset, or cut off at a token boundary, preceded by blank lines / blanks / tabs / CR LF / comment lines / a #! line and followed by blank lines, blanks, comments; each given as the program argument and in a -f file. Oracle on the binary alone: line / col / quoted line are those of the fault in the text AS GIVEN (c12At); Group: equal to the library's line, col, src, class and stdout for the same text (the library run is compared with the model); the binary's exit / stdout / stderr-present are compared with the model's cli answer",
-		Gen:  c12ThroughBinary,
+		Gen: func(r *rand.Rand, tier string, emit func(Case)) {
+			c12ThroughBinary(r, tier, emit)
+			c12MultiFile(r, tier, emit)
+		},
 	})
 }
